@@ -13,6 +13,9 @@ def fmt_terms(terms, limit=3):
     if not xs:
         xs = sorted({sym.fmt(t) for t in terms})
     xs = [re.sub(r"var:\w+", "var", re.sub(r"promoted\[\d+\]", "promoted", x)) for x in xs]
+    novar = [x for x in xs if not re.search(r"\bvar\b", x)]
+    if novar:
+        xs = novar          # a named local that merely aliases a described value adds nothing
     if xs and all(isinstance(t, tuple) and t[0] == "const" for t in terms):
         limit = 16          # a set of literals (e.g. the characters of a `contains([..])` test) is kept whole
     return "|".join(xs[:limit]) if xs else "?"
@@ -40,6 +43,44 @@ def op_desc(b, S, op):
     return fmt_terms(terms)
 
 
+OPT_TESTS = {"Option::is_some": ("discr(%s) == Some", True), "Option::is_none": ("discr(%s) == Some", False),
+             "Result::is_ok": ("discr(%s) == Ok", True), "Result::is_err": ("discr(%s) == Ok", False)}
+
+
+def canon_test(name, args):
+    """(description, positive?) of a boolean call: `x.is_some()` and `matches!(x, Some(_))` / `if let Some(_) = x` are one test;
+    std callees are named by their last two path segments (as in operand descriptions), repo callees by their full path"""
+    short = "::".join(name.split("::")[-2:])
+    short = re.sub(r"^(option|result)::", "", short)
+    if short in OPT_TESTS and "," not in args:
+        pat, pos = OPT_TESTS[short]
+        return (pat % args, pos)
+    if re.match(r"(std|core|alloc)::", name) or name.startswith("<"):
+        name = name.split("::")[-1]
+    return ("%s(%s)" % (name, args), True)
+
+
+def const_bool_defs(b, l):
+    """blocks that assign the constants true / false to the bool local l, if all its definitions are such constants
+    (the shape `matches!(..)` and `let flag = if c { true } else { false }` compile to); else None"""
+    t, f = [], []
+    for bi, blk in enumerate(b.blocks):
+        if blk["cleanup"]:
+            continue
+        for s in blk["s"]:
+            if s["k"] == "assign" and not s["p"]["p"] and s["p"]["l"] == l:
+                if s["rv"]["r"] == "use" and s["rv"]["a"].get("k") in ("true", "false"):
+                    (t if s["rv"]["a"]["k"] == "true" else f).append(bi)
+                else:
+                    return None
+        tt = blk["t"]
+        if tt["k"] == "call" and not tt["dest"]["p"] and tt["dest"]["l"] == l:
+            return None
+    if not t or not f:
+        return None
+    return t, f
+
+
 def bool_desc(b, S, l, depth=0):
     """(description, positive?) of the bool local l from its single definition"""
     defs = []
@@ -58,7 +99,7 @@ def bool_desc(b, S, l, depth=0):
     if kind == "c":
         name = mir.strip_generics((d.get("res") or "?").lstrip("?"))
         args = ", ".join(op_desc(b, S, a) for a in d["args"])
-        return ("%s(%s)" % (name, args), True)
+        return canon_test(name, args)
     rv = d["rv"]
     if rv["r"] == "bin" and rv["op"] in CMP:
         return ("%s %s %s" % (op_desc(b, S, rv["a"]), CMP[rv["op"]], op_desc(b, S, rv["b"])), True)
@@ -94,9 +135,19 @@ def switch_desc(b, S, sb, taken):
     if t["dty"] == "bool" and d is not None and d["p"]:
         dsc = op_desc(b, S, t["d"])
         truth = (not is_other and vals == ["1"]) or (is_other and [v for v, _ in t["ts"]] == ["0"])
+        m = re.fullmatch(r"(is_some|is_none|is_ok|is_err)\((.*)\)", dsc)
+        if m and "|" not in m.group(2):
+            pat, pos = OPT_TESTS[{"is_some": "Option::is_some", "is_none": "Option::is_none", "is_ok": "Result::is_ok", "is_err": "Result::is_err"}[m.group(1)]]
+            dsc = pat % m.group(2)
+            if not pos:
+                truth = not truth
+        m = re.fullmatch(r"(.*) (<|<=|>|>=|==|!=) (.*)", dsc)
+        if m and not truth:
+            return "%s %s %s" % (m.group(1), NEG[m.group(2)], m.group(3))
         return dsc if truth else "!(" + dsc + ")"
     # discriminant / integer switch
     subj = "?"
+    disc_names = None
     if d is not None and not d["p"]:
         for s in reversed(b.blocks[sb]["s"]):
             if s["k"] == "assign" and not s["p"]["p"] and s["p"]["l"] == d["l"]:
@@ -104,6 +155,8 @@ def switch_desc(b, S, sb, taken):
                 if rv["r"] == "discr":
                     subj = "discr(%s)" % op_desc(b, S, {"c": rv["p"]})
                     adt = rv.get("adt")
+                    if adt:
+                        disc_names = variant_names(adt)
                     if adt and not is_other:
                         names = variant_names(adt)
                         vals = [names.get(v, v) for v in vals]
@@ -127,6 +180,8 @@ def switch_desc(b, S, sb, taken):
         return "%s == %s" % (subj, "|".join("%s_%s" % (v, ity) for v in vals))
     if is_other:
         others = sorted(v for v, _ in t["ts"])
+        if len(others) == 1 and subj.startswith("discr(") and disc_names:
+            return "%s != %s" % (subj, disc_names.get(others[0], others[0]))
         return "%s not in {%s}" % (subj, ",".join(others))
     return "%s == %s" % (subj, "|".join(vals))
 
@@ -151,14 +206,50 @@ def variant_names(adt):
     return _variants[adt]
 
 
-def guard_set(b, S, block, drop_iter=True):
+def guard_set(b, S, block, drop_iter=True, _depth=0):
     out = set()
     for (sb, taken) in b.control_deps_closure(block):
+        t = b.blocks[sb]["t"]
+        d = mir.op_place(t["d"])
+        if t.get("dty") == "bool" and d is not None and not d["p"] and _depth < 4:
+            # a test on a flag that only ever holds the constants true/false: the decision was taken where the flag was set
+            # (matches!(..), `let is_x = if .. { true } else { false }`); continue with the conditions of those assignments
+            src = resolve_copy(b, d["l"])
+            cd = const_bool_defs(b, src)
+            if cd is not None:
+                vals = [v for v, bb in t["ts"] if bb == taken]
+                is_other = taken == t["o"] and not vals
+                truth = (not is_other and vals == ["1"]) or (is_other and [v for v, _ in t["ts"]] == ["0"])
+                for db in (cd[0] if truth else cd[1]):
+                    out |= guard_set(b, S, db, drop_iter, _depth + 1)
+                continue
         g = switch_desc(b, S, sb, taken)
-        if drop_iter and re.search(r"discr\(.*\) == Some$", g) and re.search(r"(Iterator|IntoIterator|::next|iter)", g) is None and False:
-            continue
-        out.add(g)
+        m = re.fullmatch(r"(discr\(.*\)) == ([\w|]+)", g)
+        if m and "|" in m.group(2):
+            for v in m.group(2).split("|"):     # `A | B => ..` is the same decision as two arms
+                out.add("%s == %s" % (m.group(1), v))
+        else:
+            out.add(g)
     return out
+
+
+def resolve_copy(b, l, depth=0):
+    """follow `x = copy/move y` chains of single-definition temporaries"""
+    if depth > 6:
+        return l
+    defs = []
+    for blk in b.blocks:
+        for s in blk["s"]:
+            if s["k"] == "assign" and not s["p"]["p"] and s["p"]["l"] == l:
+                defs.append(s)
+        tt = blk["t"]
+        if tt["k"] == "call" and not tt["dest"]["p"] and tt["dest"]["l"] == l:
+            return l
+    if len(defs) == 1 and defs[0]["rv"]["r"] == "use":
+        pl = mir.op_place(defs[0]["rv"]["a"])
+        if pl is not None and not pl["p"]:
+            return resolve_copy(b, pl["l"], depth + 1)
+    return l
 
 
 def error_variant(b, block, adt_suffixes=("A2lError", "ParserError", "TokenizerError")):
